@@ -1531,4 +1531,9 @@ mod test {
             &self.0
         }
     }
+
+    #[cfg(lumina_verif)]
+    mod verif_native {
+        include!(concat!(env!("LUMINA_VERIF_DIR"), "/native/node/pruner.rs"));
+    }
 }
